@@ -401,6 +401,99 @@ def gen_tileseq(ctx, k, idx):
                 evs=["U0,0,%d,%d F" % (W, H)], sents=["0301" + be16(0) + be16(0) + be16(W) + be16(H)])
 
 
+# ---------------------------------------------------------------- application calls between messages
+def gen_apiseq(ctx, k):
+    """SendExtDesktopSize interleaved with the decode loop: what the client writes (SetDesktopSize, the full request, the
+    incremental requests it must withhold while the resize is pending and must resume after ANY ExtendedDesktopSize
+    answer - same size, new size, several screens) is part of the oracle, next to the framebuffer."""
+    rng = ctx.rng
+    fmtname = rng.choice(list(FORMATS))
+    fmt = FORMATS[fmtname]
+    bpp = fmt[0]
+    W, H = rng.choice(DIMS), rng.choice(DIMS)
+    sibpp, sigmax = rng.choice([(32, 255)] * 4 + [(16, 63)] * 2 + [(16, 31), (8, 7)])
+    L = ["case %d %s %dx%d apiseq" % (k, fmtname, W, H)]
+    L.append("init %d %d %s %d %d %s" % (W, H, " ".join(map(str, fmt)), sibpp, sigmax, ALL_ENCS))
+    cv = Canvas(W, H, bpp)
+    seed = rng.randrange(1 << 30)
+    L.append("fill %d" % seed)
+    cv.fill(seed)
+    L.append("seg " + " ".join(map(str, gen_seg(rng))))
+    mask = ((fmt[3] << fmt[6]) | (fmt[4] << fmt[7]) | (fmt[5] << fmt[8])) & ((1 << bpp) - 1)
+    d = bpp // 4
+    st = dict(W=W, H=H, cv=cv, screen=None, pending=False)
+    expect, evs, sents, feats = [], [], [], []
+
+    def incr():
+        return "" if st["pending"] else "0301" + be16(0) + be16(0) + be16(st["W"]) + be16(st["H"])
+
+    def eds(nW, nH, reason=0, status=0, nscr=1):
+        """FramebufferUpdate with one ExtendedDesktopSize rectangle"""
+        scr = "".join(be32(1 + i) + be16(0) + be16(0) + be16(nW) + be16(nH) + be32(0) for i in range(nscr))
+        L.append("fbu 1")
+        L.append("b " + rect_hdr(reason, status, nW, nH, 0xfffffecc) + "%02x000000" % nscr + scr)
+        ev = []
+        if nscr:
+            st["screen"] = (nW, nH)
+        if (nW, nH) != (st["W"], st["H"]):
+            ev.append("R%d,%d" % (nW, nH))
+            st["W"], st["H"] = nW, nH
+            st["cv"] = Canvas(nW, nH, bpp)
+        st["pending"] = False
+        ev.append("F")
+        evs.append(" ".join(ev)); sents.append(incr()); expect.append(st["cv"].hexdump(mask))
+        L.append("run")
+
+    def update():
+        """an ordinary update (one raw rectangle)"""
+        x, y, w, h = gen_rect_geom(rng, st["W"], st["H"])
+        pix = gen_pixels(rng, w, h, bpp, rng.choice(PIX_KINDS))
+        L.append("fbu 1")
+        L.append("rect raw %d %d %d %d %d %s" % (x, y, w, h, rng.randrange(1 << 30), "".join("%0*x" % (d, v) for v in pix)))
+        st["cv"].paint(x, y, w, h, pix)
+        evs.append("U%d,%d,%d,%d F" % (x, y, w, h)); sents.append(incr()); expect.append(st["cv"].hexdump(mask))
+        L.append("run")
+
+    def api(w, h):
+        L.append("api extsize %d %d" % (w, h))
+        sent = ""
+        if st["screen"] and st["screen"] != (w, h):
+            sent = ("fbuu" + be16(w) + be16(h) + "01uu" + "uu" * 8 + be16(w) + be16(h) + "uu" * 4 +
+                    "0300" + be16(0) + be16(0) + be16(w) + be16(h))
+            st["screen"] = (w, h)
+            st["pending"] = True
+        evs.append(""); sents.append(sent)
+
+    plan = rng.choice(["same", "same", "new", "new", "late", "late", "noscreen", "nochange", "twice", "multi"])
+    feats.append("api/extsize/" + plan)
+    other = lambda: rng.choice([(a, b) for a in DIMS[:8] for b in DIMS[:8] if (a, b) != (st["W"], st["H"])])
+    if plan == "noscreen":
+        api(*other()); update(); update()
+    else:
+        eds(st["W"], st["H"], nscr=rng.choice([1, 1, 2]))          # the server announces the extension
+        if rng.random() < 0.5:
+            update()
+        if plan == "nochange":
+            api(st["W"], st["H"]); update()
+        else:
+            w2, h2 = other()
+            api(w2, h2)
+            if plan in ("late", "twice"):
+                update()                                           # request withheld
+                if plan == "twice":
+                    api(*other()); update()
+            if plan in ("same", "late", "twice"):
+                eds(st["W"], st["H"], reason=1, status=rng.choice([1, 2, 3]))   # refused: the size stays
+            elif plan == "multi":
+                eds(w2, h2, reason=1, nscr=2)
+            else:
+                eds(w2, h2, reason=1)
+            update()                                               # requests flow again
+            if rng.random() < 0.4:
+                api(*other()); eds(st["W"], st["H"], reason=1, status=1); update()
+    return dict(lines=L, expect=expect, feats=feats, fmt=fmtname, bpp=bpp, W=W, H=H, sigmax=sigmax, evs=evs, sents=sents)
+
+
 def load_corpus(k0):
     cases = []
     cdir = os.path.join(vlib.VERIF, "corpus", PID)
@@ -527,7 +620,7 @@ def oracle(case, il):
         return "the client rejected a valid stream (HandleRFBServerMessage returned FALSE)"
     if len(fbs) < len(case["expect"]):
         return "only %d of %d framebuffer updates were completed" % (len(fbs), len(case["expect"]))
-    msgs = [l for l in il if l.startswith("msg ")]
+    msgs = [l for l in il if l.startswith(("msg ", "api "))]      # server messages and application calls, in order
     if "evs" in case:
         got_ev = [m[m.index("ev=[") + 4:m.index("] sent=")] for m in msgs]
         for k, want in enumerate(case["evs"]):
@@ -702,6 +795,8 @@ def check(ctx):
     off = rng.randrange(len(TS_COMBOS))
     for i in range(len(TS_COMBOS) * (1 if ctx.quick() else 8)):
         cases.append(gen_tileseq(ctx, len(cases), off + i))
+    for i in range(150 if ctx.quick() else 3000):
+        cases.append(gen_apiseq(ctx, len(cases)))
     encode(mexe, cases)
     global FIXMASK
     fixmask = probe_fixes(cexe, mexe)
